@@ -1,5 +1,6 @@
 #!/usr/bin/env python3
-"""tools/seedtest.py [--all-checks] [seed ids...]
+"""tools/seedtest.py [--all-checks] [--harmless] [seed ids...]
+(--harmless: take the behaviour-preserving edits of /verif/harmless/<id>/ instead; there every check must pass)
 Runs the registered checks against the seeded changes in /verif/seeded/<id>/ : applies
 patch.diff to /repo (git apply), runs the checks named in meta.json ("checks", default: the
 property's own check; --all-checks: every claimed check), records exit code and VIOLATION line
@@ -15,16 +16,17 @@ def sh(cmd, **kw):
 def main():
     args = [a for a in sys.argv[1:] if not a.startswith("--")]
     allchecks = "--all-checks" in sys.argv
-    seeds = args or sorted(d for d in os.listdir(os.path.join(ROOT, "seeded")) if os.path.exists(os.path.join(ROOT, "seeded", d, "meta.json")))
+    SD = "harmless" if "--harmless" in sys.argv else "seeded"
+    seeds = args or sorted(d for d in os.listdir(os.path.join(ROOT, SD)) if os.path.exists(os.path.join(ROOT, SD, d, "meta.json")))
     claimed = [c["property_id"] for c in json.load(open(os.path.join(ROOT, "MANIFEST.json")))["checks"]]
     if sh(["git", "-C", REPO, "status", "--porcelain", "--untracked-files=no"]).stdout.strip():
         print("seedtest: /repo has uncommitted changes; refusing"); return 2
     summary = []
     for sid in seeds:
-        d = os.path.join(ROOT, "seeded", sid)
+        d = os.path.join(ROOT, SD, sid)
         meta = json.load(open(os.path.join(d, "meta.json")))
         patch = os.path.join(d, meta.get("patch", "patch.diff"))
-        checks = claimed if allchecks else meta.get("checks", [meta["property"]])
+        checks = claimed if allchecks else meta.get("checks") or [meta["property"]]
         r = sh(["git", "-C", REPO, "apply", patch])
         if r.returncode != 0:
             print(f"{sid}: patch does not apply: {r.stdout[:300]}"); summary.append((sid, "PATCH-FAILED")); continue
@@ -41,7 +43,11 @@ def main():
             sh(["git", "-C", REPO, "checkout", "--", "."])
         json.dump({"seed": sid, "results": res, "at": time.strftime("%Y-%m-%dT%H:%M:%SZ", time.gmtime())}, open(os.path.join(d, "result.json"), "w"), indent=1)
         det = [c for c, v in res.items() if v["exit"] == 1 and v["violation"]]
-        summary.append((sid, "detected by " + ",".join(det) if det else "MISSED"))
+        if meta.get("expect") == "pass":
+            bad = [c for c, v in res.items() if v["exit"] != 0]
+            summary.append((sid, "FALSE-ALARM by " + ",".join(bad) if bad else "no alarm (as it should be)"))
+        else:
+            summary.append((sid, "detected by " + ",".join(det) if det else "MISSED"))
     print("\n".join(f"{a}: {b}" for a, b in summary))
     return 0
 
